@@ -54,6 +54,24 @@ def make_replay(pid, jn, obs, r, work):
     return dict(path=path, replayed=rec['replayed'])
 
 
+def make_replay_undecided(pid, jn, why, r, work):
+    """the verifier did not decide job jn; look for a concrete disagreement with the native oracle"""
+    from . import finders
+    rec = dict(property=pid, job=jn, obligation=None, description='verifier undecided: ' + why[:500],
+               found_by='replay oracle search (differential testing against the specification macros; not a refuted proof obligation)',
+               cbmc_commands=r.cmds, replayed=False)
+    found = finders.find(r.job, None, rec, work)
+    if found:
+        rec.update(found)
+        rec['replayed'] = bool(found.get('replay_confirms'))
+    safe = re.sub(r'[^A-Za-z0-9_.-]', '_', '%s-%s-undecided' % (pid, jn))
+    path = os.path.join(os.environ.get('VERIF_REPLAY_DIR') or os.path.join(VERIF, 'replays'), safe + '.json')
+    os.makedirs(os.path.dirname(path), exist_ok=True)
+    with open(path, 'w') as f:
+        json.dump(rec, f, indent=1)
+    return dict(path=path, replayed=rec['replayed'], input_text=rec.get('input_text', ''))
+
+
 def replay_file(path):
     from . import finders
     rec = json.load(open(path))
